@@ -12,3 +12,14 @@ func verifWaitGroupAddWindow() {
 		hook()
 	}
 }
+
+// VerifSortedSetAddWindow, if set, is called by sortedSet.addSorted after the subscription to the element's weight
+// variable was created (OnUpdate has returned and released the execution lock of the new callback) and before its
+// unsubscribe function is stored in the element. It exists only in verification builds (build tag "verif").
+var VerifSortedSetAddWindow func()
+
+func verifSortedSetAddWindow() {
+	if hook := VerifSortedSetAddWindow; hook != nil {
+		hook()
+	}
+}
